@@ -294,6 +294,12 @@ func ruleC18R3(c *Ctx) {
 			switch {
 			case isSlice:
 				hi := sl.High
+				// the offsets are offsets into the text the tokenizer was given: the slice must be taken
+				// from that text itself, not from a trimmed copy of it
+				if param != nil && sl.X != param && isByteSlice(param.Type()) {
+					c.Violate(key, pos, "the token's term is cut out of a re-sliced or trimmed copy of the input, so Start/End are not offsets into the text the tokenizer saw (e.g. after trimming a prefix every offset is too small)")
+					continue
+				}
 				okS := same(start, sl.Low)
 				okE := hi != nil && same(end, hi)
 				if hi == nil {
@@ -436,3 +442,4 @@ func isAnalysisComponent(t types.Type) bool {
 	}
 	return false
 }
+
